@@ -14,6 +14,7 @@ use crate::common::Ctx;
 pub fn run(ctx: &Ctx) {
     // "rate-limited": between the two phases of the family run (no tracing subscriber yet), suite "-r"
     let mut r = crate::common::Out::new(ctx, "-r");
+    let mut late = None;
     let mut between = |rng: &mut crate::common::Rng| {
         if let Some(p) = &ctx.replay {
             for line in std::fs::read_to_string(p).unwrap().lines().filter(|l| l.starts_with("(7 ")) {
@@ -21,6 +22,8 @@ pub fn run(ctx: &Ctx) {
             }
         } else {
             queue_rate::run_rate(&mut r, rng, ctx.tier_thorough);
+            // a queue built now, used again once the family run has installed its tracing subscriber
+            late = queue_rate::late_subscriber_prepare();
         }
     };
     queue_family::run_family_with(
@@ -32,6 +35,9 @@ pub fn run(ctx: &Ctx) {
          stream error, two producers; distinct by hash of the recorded label sequence",
         &mut between,
     );
+    if let Some(ls) = late.take() {
+        queue_rate::late_subscriber_check(&mut r, ls);
+    }
     r.finish(
         "rate limiter: every operation sequence up to length 5 (quick) / 6 (thorough) over {clock +0.5 s, clock +1 s, failing entry, \
          good entry}, random monotone clocks with steps around the second boundary and idle periods up to 10^9 s, idle-then-burst, \
